@@ -603,23 +603,23 @@ Qed.
     environment variables (in any order) instead of the file, the result is the
     one of the file holding all of [c] *)
 Theorem file_env_equivalent_splits :
-  forall sh sh' to_real pfx d c sel env tenv,
+  forall sh sh' fix3 to_real pfx d c sel env tenv,
     perm_fun sh -> perm_fun sh' ->
-    domain to_real pfx d c [] [] ->
+    domain fix3 to_real pfx d c [] [] ->
     typed_env to_real (norm_env pfx env) = Some tenv ->
     Permutation tenv (sel_leaves sel (Map c)) ->
-    guard_F3 (norm_env pfx env) = false -> guard_F4 (norm_env pfx env) = false ->
-    exists t t', load sh to_real false false pfx d (Some (keep_map sel c)) env = Ok t /\
-                 load sh' to_real false false pfx d (Some c) [] = Ok t' /\
+    (fix3 = true \/ guard_F3 (norm_env pfx env) = false) -> guard_F4 (norm_env pfx env) = false ->
+    exists t t', load sh to_real fix3 false pfx d (Some (keep_map sel c)) env = Ok t /\
+                 load sh' to_real fix3 false pfx d (Some c) [] = Ok t' /\
                  Tidy (Map t) /\ Tidy (Map t') /\
                  forall p, view p (Map t) = view p (Map t').
 Proof.
-  intros sh sh' to_real pfx d c sel env tenv Hs Hs' D Ht P G3 G4.
+  intros sh sh' fix3 to_real pfx d c sel env tenv Hs Hs' D Ht P G3 G4.
   assert (Sc : in_scope d c []) by (destruct D as (_ & S & _); assumption).
   assert (S0 := in_scope_split d c sel Sc).
   assert (S1 : in_scope d (keep_map sel c) tenv).
   { eapply in_scope_perm; [apply Permutation_sym; exact P | exact S0]. }
-  apply (file_env_equivalent sh sh' to_real pfx d c (keep_map sel c) env tenv Hs Hs'); auto.
+  apply (file_env_equivalent sh sh' fix3 to_real pfx d c (keep_map sel c) env tenv Hs Hs'); auto.
   - unfold domain. splits; assumption.
   - intro p. rewrite (env_view_perm d (keep_map sel c) tenv _ p S1 P).
     apply split_of_keep. destruct Sc as (_ & Tc & _). assumption.
